@@ -209,6 +209,7 @@ theorem stepC_ok (t : Table) (mode : Nat) (input : List Nat) (max : Nat) (sc : S
         · -- a context rule
           rename_i r m ic hfound
           have hm : MatchOK input.length (s1.pos : Int) m := by
+            unfold foundC at hfound
             split at hfound
             · rename_i r' m' ic' hctx
               cases hfound
